@@ -147,12 +147,12 @@ type zzFakeClock struct {
 	tick chan time.Time
 }
 
-func (c *zzFakeClock) After(d time.Duration) <-chan time.Time         { return nil }
-func (c *zzFakeClock) Sleep(d time.Duration)                          {}
-func (c *zzFakeClock) Now() time.Time                                 { return c.now }
-func (c *zzFakeClock) Since(t time.Time) time.Duration                { return c.now.Sub(t) }
-func (c *zzFakeClock) NewTicker(d time.Duration) clockwork.Ticker     { return zzFakeTicker{c} }
-func (c *zzFakeClock) NewTimer(d time.Duration) clockwork.Timer       { return nil }
+func (c *zzFakeClock) After(d time.Duration) <-chan time.Time              { return nil }
+func (c *zzFakeClock) Sleep(d time.Duration)                               {}
+func (c *zzFakeClock) Now() time.Time                                      { return c.now }
+func (c *zzFakeClock) Since(t time.Time) time.Duration                     { return c.now.Sub(t) }
+func (c *zzFakeClock) NewTicker(d time.Duration) clockwork.Ticker          { return zzFakeTicker{c} }
+func (c *zzFakeClock) NewTimer(d time.Duration) clockwork.Timer            { return nil }
 func (c *zzFakeClock) AfterFunc(d time.Duration, f func()) clockwork.Timer { return nil }
 
 type zzFakeTicker struct{ c *zzFakeClock }
